@@ -886,3 +886,8 @@ def chunks_of_an_iterator():
         out.append(len(chunk))
         chunk = list(itertools.islice(items, 2))
     return out
+
+
+def nested_comprehension_flattens():
+    blocks = ([k * 10 + j for j in range(k + 1)] for k in range(3))
+    return [r for block in blocks for r in block]
